@@ -2,17 +2,27 @@
 """Merge agent meta, my confirmation and the check matrix into seeded/<id>/meta.json and write seeded/MATRIX.md."""
 import json, os, re, glob
 root = "/verif/seeded"
-matrix = {}
-raw = os.path.join(root, "matrix_raw.txt")
-if os.path.exists(raw):
-    for l in open(raw):
-        if ":" not in l:
-            continue
-        name, rest = l.split(":", 1)
-        cells = {}
-        for m in re.finditer(r"(C\d\d)=(\d+)/(\d+)", rest):
-            cells[m.group(1)] = (int(m.group(2)), int(m.group(3)))
-        matrix[name.strip()] = cells
+def read_rows(path):
+    out = {}
+    if os.path.exists(path):
+        for l in open(path):
+            if ":" not in l:
+                continue
+            name, rest = l.split(":", 1)
+            cells = {}
+            for m in re.finditer(r"(C\d\d)=(\d+)/(\d+)", rest):
+                cells[m.group(1)] = (int(m.group(2)), int(m.group(3)))
+            if cells:
+                out[name.strip()] = cells
+    return out
+
+# full rows (all 18 quick checks): older run with the machinery as of commit e684543 (before round 5),
+# overridden by rows measured with the final machinery; own-check results of the final machinery
+matrix_old = read_rows(os.path.join(root, "matrix_raw_before_round5.txt"))
+matrix_new = read_rows(os.path.join(root, "matrix_raw.txt"))
+own = read_rows(os.path.join(root, "own_raw.txt"))
+matrix = dict(matrix_old)
+matrix.update(matrix_new)
 props = ["C%02d" % i for i in range(1, 19)]
 rows = []
 for d in sorted(glob.glob(os.path.join(root, "*/"))):
@@ -46,6 +56,11 @@ for d in sorted(glob.glob(os.path.join(root, "*/"))):
         out["what_i_ran"].append("tools/matrix.sh seeded/%s   (all 18 quick checks with the change applied)" % name)
         out["quick_checks_with_change"] = {p: {"exit": matrix[name][p][0], "violation_lines": matrix[name][p][1]} for p in props if p in matrix[name]}
         out["caught_by_own_check"] = matrix[name].get(meta.get("property"), (0, 0))[0] == 1
+        out["full_row_measured_with"] = "final machinery" if name in matrix_new else "machinery as of /verif commit e684543 (before round 5); the own-property cell was re-measured with the final machinery, see own_quick_check_final"
+    if name in own and meta.get("property") in own[name]:
+        rc, n = own[name][meta.get("property")]
+        out["own_quick_check_final"] = {"exit": rc, "violation_lines": n}
+        out["caught_by_own_check"] = rc == 1
     for k in ("summary", "commands_run"):
         if k in meta:
             out.setdefault("agent_" + k, meta[k])
@@ -60,7 +75,12 @@ with open(os.path.join(root, "MATRIX.md"), "w") as f:
     f.write("| change | " + " | ".join(p[1:] for p in props) + " |\n")
     f.write("|---|" + "---|" * len(props) + "\n")
     for name, prop, cells in rows:
+        cells = dict(cells)
+        if name in own and prop in own[name]:
+            cells[prop] = own[name][prop]          # the own-property cell always comes from the final machinery
         if not cells:
             continue
-        f.write("| %s | " % name + " | ".join(("%d%s" % (cells[p][0], "*" if p == prop else "")) if p in cells else "" for p in props) + " |\n")
+        tag = "" if name in matrix_new else (" †" if name in matrix_old else " ‡")
+        f.write("| %s%s | " % (name, tag) + " | ".join(("%d%s" % (cells[p][0], "*" if p == prop else "")) if p in cells else "" for p in props) + " |\n")
+    f.write("\nRows without a mark: all 18 cells measured with the final machinery. † = the other 17 cells were measured with the machinery as of /verif commit e684543 (before rounds 5-9 extended several workloads; later extensions can only add firings); the own-property cell (*) was re-measured with the final machinery. ‡ = only the own-property cell was measured.\n")
 print("rows:", len(rows), "with matrix:", sum(1 for r in rows if r[2]))
